@@ -41,8 +41,13 @@ def run(name):
 
 with ThreadPoolExecutor(4) as ex:
     results = list(ex.map(run, names))
-if len(names) > 5:
-    json.dump(results, open('/verif/seeded/RESULTS.json', 'w'), indent=1)
+# merge into RESULTS.json (keyed by name), so partial re-runs refresh only their own rows
+path = '/verif/seeded/RESULTS.json'
+old = {r['name']: r for r in (json.load(open(path)) if os.path.exists(path) else [])}
+for r in results:
+    if 'error' not in r:
+        old[r['name']] = r
+json.dump([old[k] for k in sorted(old)], open(path, 'w'), indent=1)
 print('| seeded change | what it breaks / needs | detected by (quick tier) | first signatures |')
 print('|---|---|---|---|')
 for r in results:
